@@ -296,14 +296,51 @@ pub fn movie_shell(tracks: Vec<Track>) -> Movie {
     }
 }
 
+/// edit lists and (for non-fragmented movies) a movie-extends box: neither takes part in sample
+/// lookup, so both are pure decoration for C03/C09/C12; drawn from one word `x`
+pub fn decorate(m: &mut Movie, x: u32, allow_mvex: bool) {
+    if x % 5 == 0 {
+        for (i, t) in m.tracks.iter_mut().enumerate() {
+            if (x >> (8 + i)) & 1 == 1 || i == 0 {
+                let media_time = match (x >> 4) % 4 {
+                    0 => 1 + (x >> 16) as u64 % 5000,
+                    1 => 1024,
+                    2 => (1u64 << 32) + (x >> 20) as u64,
+                    _ => 0,
+                };
+                let mut el = vec![(1000 + (x >> 12) as u64 % 100_000, media_time)];
+                if (x >> 3) & 1 == 1 {
+                    // a leading empty edit (media_time -1 in the 32-bit form) in front of the real one
+                    el.insert(0, (40, if media_time > u32::MAX as u64 { u64::MAX } else { u32::MAX as u64 }));
+                }
+                t.elst = Some(el);
+            }
+        }
+    }
+    if allow_mvex && x % 7 == 3 && m.frags.is_empty() {
+        // a movie-extends box in a file that has no fragments (e.g. a finalised recording)
+        m.mehd = Some(((x >> 5) as u8 & 1, (x >> 8) as u64));
+    }
+}
+
+/// names of real iTunes items the library has no accessor for (all of them "unknown items" to C18)
+pub fn itunes_atom_name() -> impl Strategy<Value = Cc> {
+    const NAMES: [&[u8; 4]; 48] = [
+        b"\xa9ART", b"\xa9wrt", b"\xa9cmt", b"\xa9gen", b"\xa9grp", b"\xa9lyr", b"\xa9enc", b"\xa9alb", b"\xa9des", b"\xa9cpy", b"cprt", b"gnre", b"disk", b"tmpo", b"cpil", b"pgap",
+        b"rtng", b"stik", b"pcst", b"catg", b"keyw", b"purl", b"egid", b"tvsh", b"tven", b"tvsn", b"tves", b"tvnn", b"ldes", b"sdes", b"sonm", b"soar",
+        b"soal", b"soco", b"sosn", b"apID", b"cnID", b"atID", b"plID", b"geID", b"sfID", b"akID", b"hdvd", b"purd", b"xid ", b"ownr", b"titl", b"dscp",
+    ];
+    (0usize..NAMES.len()).prop_map(|i| *NAMES[i])
+}
+
 /// non-fragmented movie with consistent sample tables
 pub fn table_movie(max_tracks: usize, max_samples: usize) -> impl Strategy<Value = Movie> {
     let tracks = prop_oneof![
         3 => prop::collection::vec(table_track(0, max_samples), 1..=1),
         2 => prop::collection::vec(table_track(0, max_samples), 2..=max_tracks.max(2)),
     ];
-    (tracks, timescale_strategy(), any::<bool>(), prop_oneof![Just(0u64), any::<u64>()], prop_oneof![3 => Just(0u8), 1 => 1u8..9], prop::collection::vec(cc_strategy(), 0..3), any::<u32>(), cc_strategy())
-        .prop_map(|(mut tracks, ts, mdat_first, interleave, gap, compat, minor, major)| {
+    (tracks, timescale_strategy(), any::<bool>(), prop_oneof![Just(0u64), any::<u64>()], prop_oneof![3 => Just(0u8), 1 => 1u8..9], prop::collection::vec(cc_strategy(), 0..3), any::<u32>(), cc_strategy(), any::<u32>())
+        .prop_map(|(mut tracks, ts, mdat_first, interleave, gap, compat, minor, major, deco)| {
             for (i, t) in tracks.iter_mut().enumerate() {
                 t.id = i as u32 + 1;
             }
@@ -315,6 +352,7 @@ pub fn table_movie(max_tracks: usize, max_samples: usize) -> impl Strategy<Value
             m.compat = compat;
             m.minor = minor;
             m.major = major;
+            decorate(&mut m, deco, true);
             m
         })
 }
@@ -427,8 +465,9 @@ pub fn frag_movie(max_tracks: usize, max_frags: usize, max_run: usize) -> impl S
         prop::option::weighted(0.2, 0u8..2),
         any::<bool>(),
         prop::bool::weighted(0.2),
+        any::<u32>(),
     )
-        .prop_map(|(tracks, frags, ts, mehd, emsg, same_trex, large_moof)| {
+        .prop_map(|(tracks, frags, ts, mehd, emsg, same_trex, large_moof, deco)| {
             let n = tracks.len();
             let mut tv: Vec<Track> = tracks
                 .into_iter()
@@ -499,6 +538,7 @@ pub fn frag_movie(max_tracks: usize, max_frags: usize, max_run: usize) -> impl S
             m.large_moof = large_moof;
             // a third of the movies carry a non-zero media duration in the mdhd of fragmented tracks
             m.frag_mdhd_dur = match m.mehd { Some((_, d)) if d % 3 == 0 => 1 + (d % 100_000) as u32, _ => 0 };
+            decorate(&mut m, deco, false);
             m
         })
 }
@@ -549,7 +589,7 @@ pub fn meta_strategy() -> impl Strategy<Value = (Meta, MetaExpect)> {
         prop_oneof![Just(String::new()), Just("year".to_string()), Just("MMVIII".to_string()), "[a-z]{1,6}"].prop_map(YearEnc::TextJunk),
     ]);
     let poster = prop::option::of(prop_oneof![Just(Vec::new()), prop::collection::vec(any::<u8>(), 1..40), prop::collection::vec(any::<u8>(), 4000..4100)]);
-    let unknown_items = prop::collection::vec((prop_oneof![Just(cc("\u{a9}too")), Just([0xa9, b'a', b'l', b'b']), Just(cc("trkn")), Just(cc("----")), Just(cc("aART"))], prop::collection::vec(any::<u8>(), 0..20), 0u32..30), 0..5);
+    let unknown_items = prop::collection::vec((prop_oneof![Just(cc("\u{a9}too")), Just([0xa9, b'a', b'l', b'b']), Just(cc("trkn")), Just(cc("----")), Just(cc("aART")), itunes_atom_name()], prop::collection::vec(any::<u8>(), 0..20), 0u32..30), 0..5);
     (
         (title, summary, year, poster),
         unknown_items,
